@@ -178,6 +178,8 @@ def judge_grid(spec, rec):
         rec.cls('grid/ordered' if ordered else 'grid/unordered', 4)
         rec.cls('grid/pc-false', 2)
         rec.cls('grid/answer-credit<1', 2)
+        if raw > 0:
+            rec.nontrivial()    # a positive grade is also scaled by the answer credit 0.5
         if 0 < max(0, raw) < 1:
             rec.cls('grid/grade/partial', 2)
             rec.cls('grid/pc-false/zeroed-partial', 2)
@@ -203,7 +205,6 @@ def judge_grid(spec, rec):
         if partial_entries:
             rec.cls('grid/missing+partial-credit')
             rec.nontrivial()
-    rec.nontrivial()    # every grid case is graded with an answer credit of 0.5 as well
     return obs
 
 
@@ -786,7 +787,7 @@ def case_specs(draw, depth, tier):
             'omit_defaults': draw(st.booleans())}
     max_ne = 5 if depth == 1 else 3
     ne = draw(st.integers(1, max_ne))
-    same = draw(st.sampled_from([True, True, False])) or (levels[0]['le'] and draw(st.integers(0, 3)) > 0)
+    same = draw(st.booleans()) if levels[0]['le'] else draw(st.sampled_from([True, True, False]))
     ns = ne if same else draw(st.integers(1, 7 if depth == 1 else 4))
     fixed_inner = draw(st.sampled_from([0, 0, 1, 2, 3])) if depth == 2 else 0
     if depth == 2 and levels[1]['le'] and not fixed_inner:
@@ -880,6 +881,6 @@ def strat_nested(tier):
 PARTS = [
     Part('grid', 'enum', judge_grid, items=items_grid, exhaustive=True),
     Part('grid_errors', 'enum', judge_grid_errors, items=items_grid_errors, exhaustive=True),
-    Part('flat', 'hyp', judge_case, strategy=strat_flat, budget={'quick': 6000, 'thorough': 120000}),
-    Part('nested', 'hyp', judge_case, strategy=strat_nested, budget={'quick': 3000, 'thorough': 60000}),
+    Part('flat', 'hyp', judge_case, strategy=strat_flat, budget={'quick': 5000, 'thorough': 120000}),
+    Part('nested', 'hyp', judge_case, strategy=strat_nested, budget={'quick': 2400, 'thorough': 60000}),
 ]
